@@ -174,6 +174,13 @@ func (o *objectGoMapReflect) setOwnIdx(idx valueInt, val Value, throw bool) bool
 	return o._put(key, val, throw)
 }
 
+func (o *objectGoMapReflect) equal(other objectImpl) bool {
+	if other, ok := other.(*objectGoMapReflect); ok {
+		return o == other || !o.fieldsValue.IsNil() && !other.fieldsValue.IsNil() && o.fieldsValue.Type() == other.fieldsValue.Type() && o.fieldsValue.Pointer() == other.fieldsValue.Pointer()
+	}
+	return false
+}
+
 func (o *objectGoMapReflect) setForeignStr(name unistring.String, val, receiver Value, throw bool) (bool, bool) {
 	return o._setForeignStr(name, trueValIfPresent(o.hasOwnPropertyStr(name)), val, receiver, throw)
 }
